@@ -30,6 +30,7 @@ theorem flags (c : Cfg) : ∀ (f : Nat) (call : Call) (w : World),
     | stmts l => cases l <;> run_cases hrun with grind
     | stmt s => cases s <;> run_cases hrun with grind [Res.andThen]
     | setAttr p v => run_cases hrun with grind [Res.andThen]
+    | setPlain p v => run_cases hrun with grind [Res.andThen]
     | dispatch ws ev => cases ws <;> run_cases hrun with grind
     | callWatcher wt ev => run_cases hrun with grind
     | exec wt evs fl => run_cases hrun with grind
@@ -44,6 +45,31 @@ theorem batch_restored (c : Cfg) (f : Nat) (call : Call) (w : World)
 
 theorem trigger_restored (c : Cfg) (f : Nat) (call : Call) (w : World)
     (h : (run c f call w).1 ≠ .oof) : (run c f call w).2.1.trigger = w.trigger := (flags c f call w h).2
+
+/-! ### L1b: no call leaves an Event parameter in mode 'set' that was not in that mode before -/
+
+theorem setMode_subset (c : Cfg) : ∀ (f : Nat) (call : Call) (w : World),
+    (run c f call w).1 ≠ .oof → ∀ p ∈ (run c f call w).2.1.setMode, p ∈ w.setMode := by
+  intro f
+  induction f with
+  | zero => intro call w h; simp [run] at h
+  | succ f ih =>
+    intro call w
+    generalize hrun : run c (f+1) call w = out
+    intro h
+    cases call with
+    | stmts l => cases l <;> run_cases hrun with grind
+    | stmt s => cases s <;> run_cases hrun with grind [Res.andThen]
+    | setAttr p v => run_cases hrun with grind [Res.andThen]
+    | setPlain p v => run_cases hrun with grind [Res.andThen]
+    | dispatch ws ev => cases ws <;> run_cases hrun with grind
+    | callWatcher wt ev => run_cases hrun with grind
+    | exec wt evs fl => run_cases hrun with grind
+    | flush => run_cases hrun with grind
+    | flushRound ws d => cases ws <;> run_cases hrun with grind
+    | update kvs => run_cases hrun with grind [Res.andThen]
+    | updateKeys kvs => rcases kvs with _ | ⟨⟨k, v⟩, rest⟩ <;> run_cases hrun with grind
+    | trigger ps => run_cases hrun with grind
 
 /-! ### L2: a watcher is queued only together with an event; queues are empty again after every
 statement-level call made with the batching flag off -/
@@ -65,6 +91,7 @@ theorem inv2 (c : Cfg) : ∀ (f : Nat) (call : Call) (w : World),
     | stmts l => cases l <;> run_cases hrun with grind
     | stmt s => cases s <;> run_cases hrun with grind [Res.andThen]
     | setAttr p v => run_cases hrun with grind [Res.andThen]
+    | setPlain p v => run_cases hrun with grind [Res.andThen]
     | dispatch ws ev => cases ws <;> run_cases hrun with grind
     | callWatcher wt ev => run_cases hrun with grind [List.append_eq_nil_iff]
     | exec wt evs fl => run_cases hrun with grind
@@ -79,7 +106,7 @@ def Q (w : World) : Prop := w.events = [] ∧ w.queued = []
 
 /-- statement-level call kinds (what a program or a callback body can execute) and the flush -/
 def Call.stmtLevel : Call → Bool
-  | .stmts _ | .stmt _ | .setAttr .. | .update _ | .trigger _ => true
+  | .stmts _ | .stmt _ | .setAttr .. | .setPlain .. | .update _ | .trigger _ => true
   | _ => false
 
 /-- With the batching flag off: a flush empties the queues from any state, and a
@@ -103,6 +130,7 @@ theorem queues_empty (c : Cfg) : ∀ (f : Nat) (call : Call) (w : World),
     | stmts l => cases l <;> run_cases hrun with grind [Call.stmtLevel]
     | stmt s => cases s <;> run_cases hrun with grind [Res.andThen, Call.stmtLevel]
     | setAttr p v => run_cases hrun with grind [Res.andThen, Call.stmtLevel]
+    | setPlain p v => run_cases hrun with grind [Res.andThen, Call.stmtLevel]
     | dispatch ws ev => simp [Call.stmtLevel]
     | callWatcher wt ev => simp [Call.stmtLevel]
     | exec wt evs fl => simp [Call.stmtLevel]
@@ -135,6 +163,7 @@ theorem silent_in_batch (c : Cfg) : ∀ (f : Nat) (call : Call) (w : World),
     | stmts l => cases l <;> run_cases hrun with grind [Call.deferring]
     | stmt s => cases s <;> run_cases hrun with grind [Res.andThen, Call.deferring]
     | setAttr p v => run_cases hrun with grind [Res.andThen, Call.deferring]
+    | setPlain p v => run_cases hrun with grind [Res.andThen, Call.deferring]
     | dispatch ws ev => cases ws <;> run_cases hrun with grind [Call.deferring]
     | callWatcher wt ev => run_cases hrun with grind [Call.deferring]
     | exec wt evs fl => simp [Call.deferring] at hd
@@ -344,6 +373,7 @@ theorem nodupQ (c : Cfg) : ∀ (f : Nat) (call : Call) (w : World),
     | stmts l => cases l <;> run_cases hrun with grind
     | stmt s => cases s <;> run_cases hrun with grind [Res.andThen]
     | setAttr p v => run_cases hrun with grind [Res.andThen]
+    | setPlain p v => run_cases hrun with grind [Res.andThen]
     | dispatch ws ev => cases ws <;> run_cases hrun with grind
     | callWatcher wt ev =>
       simp only [run] at hrun
@@ -386,6 +416,7 @@ theorem deferred_kept (c : Cfg) : ∀ (f : Nat) (call : Call) (w : World),
     | stmts l => cases l <;> run_cases hrun with grind [Call.deferring]
     | stmt s => cases s <;> run_cases hrun with grind [Res.andThen, Call.deferring]
     | setAttr p v => run_cases hrun with grind [Res.andThen, Call.deferring]
+    | setPlain p v => run_cases hrun with grind [Res.andThen, Call.deferring]
     | dispatch ws ev => cases ws <;> run_cases hrun with grind [Call.deferring]
     | callWatcher wt ev => run_cases hrun with grind [Call.deferring]
     | exec wt evs fl => simp [Call.deferring] at hd
@@ -600,10 +631,10 @@ theorem evsFor_mem {tr : Bool} {wt : Watcher} {dict : List Ev} {te : TEv} (h : t
 
 /-! ### assignments made while the batching flag is set: values are stored, nothing else happens -/
 
-theorem setAttr_in_batch (c : Cfg) (f : Nat) (w : World) (p : Nat) (v : Int) (hb : w.batch = true)
-    (h : (run c f (.setAttr p v) w).1 ≠ .oof) :
-    ((run c f (.setAttr p v) w).1 = .ok ∧ (run c f (.setAttr p v) w).2.1.vals = w.vals.set p v ∧ c.valid p v = true) ∨
-    ((run c f (.setAttr p v) w).1 = .raised .value ∧ (run c f (.setAttr p v) w).2.1 = w ∧ c.valid p v = false) := by
+theorem setPlain_in_batch (c : Cfg) (f : Nat) (w : World) (p : Nat) (v : Int) (hb : w.batch = true)
+    (h : (run c f (.setPlain p v) w).1 ≠ .oof) :
+    ((run c f (.setPlain p v) w).1 = .ok ∧ (run c f (.setPlain p v) w).2.1.vals = w.vals.set p v ∧ c.valid p v = true) ∨
+    ((run c f (.setPlain p v) w).1 = .raised .value ∧ (run c f (.setPlain p v) w).2.1 = w ∧ c.valid p v = false) := by
   cases f with
   | zero => simp [run] at h
   | succ f =>
@@ -639,6 +670,51 @@ theorem getVal_set_self (w : World) (p : Nat) : w.vals.set p (getVal w p) = w.va
     · subst hi; simp [List.getD, List.getElem?_eq_getElem h2]
     · simp [List.getElem_set_ne hi]
 
+theorem getD_set_ne (l : List Int) (p q : Nat) (x : Int) (h : p ≠ q) : (l.set p x).getD q 0 = l.getD q 0 := by
+  simp [List.getD, List.getElem?_set_ne h]
+
+/-- an assignment made while the flag is set touches only the value of the assigned parameter,
+and not even that one when the value assigned is the current one (Event parameters aside) -/
+theorem setAttr_in_batch_getVal (c : Cfg) (f : Nat) (w : World) (p : Nat) (v : Int) (hb : w.batch = true)
+    (h : (run c f (.setAttr p v) w).1 ≠ .oof) (q : Nat)
+    (hq : q = p → c.isEvent p = false ∧ v = getVal w p) :
+    getVal (run c f (.setAttr p v) w).2.1 q = getVal w q := by
+  cases f with
+  | zero => simp [run] at h
+  | succ f =>
+    simp only [run] at h ⊢
+    have key : ∀ (hh : (run c f (.setPlain p v) w).1 ≠ .oof),
+        (q ≠ p ∨ v = getVal w p) → getVal (run c f (.setPlain p v) w).2.1 q = getVal w q := by
+      intro hh hcase
+      rcases setPlain_in_batch c f w p v hb hh with h1 | h1
+      · unfold getVal
+        rw [h1.2.1]
+        rcases hcase with hne | heq
+        · exact getD_set_ne _ _ _ _ (Ne.symm hne)
+        · rw [heq, getVal_set_self]
+      · rw [h1.2.1]
+    by_cases he : c.isEvent p
+    · -- an Event parameter: q ≠ p by hypothesis
+      have hne : q ≠ p := fun e => by have := (hq e).1; rw [he] at this; cases this
+      simp only [he, if_true] at h ⊢
+      generalize hd : run c f (.setPlain p v) w = d at h key ⊢
+      obtain ⟨r1, w1, o1⟩ := d
+      cases r1 with
+      | oof => simp at h
+      | raised e => simpa using key (by simp) (Or.inl hne)
+      | ok =>
+        have k := key (by simp) (Or.inl hne)
+        simp only at k ⊢
+        split
+        · exact k
+        · simp only [getVal] at k ⊢
+          rw [getD_set_ne _ _ _ _ (Ne.symm hne)]; exact k
+    · simp only [he, Bool.false_eq_true, if_false] at h ⊢
+      refine key h ?_
+      by_cases e : q = p
+      · exact Or.inr (hq e).2
+      · exact Or.inl e
+
 /-- `dict(pairs)` keeps the property "the value is `g key`" -/
 theorem dedupKeys_values (g : Nat → Int) : ∀ (l : List (Nat × Int)), (∀ kv ∈ l, kv.2 = g kv.1) →
     ∀ kv ∈ dedupKeys l, kv.2 = g kv.1 := by
@@ -667,10 +743,12 @@ theorem dedupKeys_values (g : Nat → Int) : ∀ (l : List (Nat × Int)), (∀ k
       · subst e; exact hl (k, v) (by simp)
       · exact ih' kv' e
 
-/-- re-assigning current values while the batching flag is set changes no value -/
-theorem updateKeys_same_values (c : Cfg) : ∀ (kvs : List (Nat × Int)) (f : Nat) (w : World),
-    w.batch = true → (∀ kv ∈ kvs, kv.2 = getVal w kv.1) → (run c f (.updateKeys kvs) w).1 ≠ .oof →
-    (run c f (.updateKeys kvs) w).2.1.vals = w.vals := by
+/-- applying keys while the batching flag is set leaves alone every non-Event parameter that is
+either not among the keys or is re-assigned its current value -/
+theorem updateKeys_in_batch_getVal (c : Cfg) (q : Nat) (hqe : c.isEvent q = false) :
+    ∀ (kvs : List (Nat × Int)) (f : Nat) (w : World),
+    w.batch = true → (∀ kv ∈ kvs, kv.1 = q → kv.2 = getVal w q) → (run c f (.updateKeys kvs) w).1 ≠ .oof →
+    getVal (run c f (.updateKeys kvs) w).2.1 q = getVal w q := by
   intro kvs
   induction kvs with
   | nil =>
@@ -688,28 +766,24 @@ theorem updateKeys_same_values (c : Cfg) : ∀ (kvs : List (Nat × Int)) (f : Na
       by_cases hk : k ≥ c.nparams
       · simp [hk]
       · simp only [hk, if_false] at h ⊢
-        have hv : v = getVal w k := hsame (k, v) (by simp)
-        have hs := setAttr_in_batch c f w k v hb
+        have hs := setAttr_in_batch_getVal c f w k v hb
         have hfl := flags c f (.setAttr k v) w
         generalize run c f (.setAttr k v) w = d at h hs hfl ⊢
         obtain ⟨r1, w1, o1⟩ := d
         simp only at h hs hfl ⊢
+        have hq1 : getVal w1 q = getVal w q := by
+          refine hs (by cases r1 <;> simp_all) q ?_
+          intro e
+          subst e
+          exact ⟨hqe, hsame (q, v) (by simp) rfl⟩
         cases r1 with
         | oof => simp at h
-        | raised e =>
-          rcases hs (by simp) with hh | hh
-          · simp at hh
-          · simp [hh.2.1]
+        | raised e => exact hq1
         | ok =>
           simp only at h ⊢
-          rcases hs (by simp) with hh | hh
-          · have hvals : w1.vals = w.vals := by rw [hh.2.1, hv, getVal_set_self]
-            have hb1 : w1.batch = true := by rw [(hfl (by simp)).1]; exact hb
-            have := ih f w1 hb1 (by
-              intro kv hkv
-              rw [hsame kv (List.mem_cons_of_mem _ hkv)]
-              simp [getVal, hvals]) h
-            rw [this, hvals]
-          · simp at hh
+          have hb1 : w1.batch = true := by rw [(hfl (by simp)).1]; exact hb
+          rw [ih f w1 hb1 (by
+            intro kv hkv e
+            rw [hsame kv (List.mem_cons_of_mem _ hkv) e, hq1]) h, hq1]
 
 end ParamVerif.Dispatch
